@@ -297,5 +297,6 @@ Definition silent (v : verdict) : bool :=
   | _, RouteOk hs => negb (fits hs)
   end.
 
-(* the implementation limit this specification knows about (DESIGN.md F20) *)
+(* routes whose port numbers all fit the 4-bit identifier (the others use the extended port
+   identifier; before fix a95af7d the code did not emit it - DESIGN.md F20); informational only *)
 Definition small_ports (hs : list hop) : bool := forallb (fun h => h_port h <=? 14) hs.
